@@ -112,7 +112,7 @@ PROPS = {
         "level_note": "The race detector only sees the interleavings that happened; schedules are sampled, not enumerated. Checker timeouts and the trial watchdog are inconclusive, never violations.",
         "technique": "runtime monitoring: Go race detector + recorded call histories checked offline (sequential-equivalence per call, porcupine linearizability) over stress trials in journalled child processes",
         "rule": "one evaluation per trial; non-trivial = at least one pair of calls by different goroutines overlapped in real time; distinct by hash of (mode, goroutine count, completion order of all calls) - i.e. distinct observed interleavings.",
-        "floors": ["c10:mode:fresh", "c10:mode:warm", "c10:mode:global", "c10:gomaxprocs:2", "c10:gomaxprocs:16", "c10:goroutines:2", "c10:goroutines:32"],
+        "floors": ["c10:churn", "c10:mode:fresh", "c10:mode:warm", "c10:mode:global", "c10:gomaxprocs:2", "c10:gomaxprocs:16", "c10:goroutines:2", "c10:goroutines:32"],
         "assumptions": COMMON_ASSUMPTIONS + [
             "race reports are read from the GORACE log files of every child and deduplicated by the pair of innermost repository frames",
             "results are compared as digests of canonical JSON (members sorted: map iteration order is not a property of the codec) and of deterministic proto serialisations",
